@@ -358,6 +358,27 @@ def run(ctx):
                               f"{m['struct']} encodes {m['value']} as {b}; the Kafka header layout {m['kafka_type']} gives {a}",
                               {"cases": [m]})
                 break
+    # (5) the reply's header form follows the REQUEST version: flexible request versions are answered with
+    #     correlation id + tagged fields, the others with the correlation id alone
+    n_hdr = 0
+    for e in entries:
+        if e["kind"] != "req" or not hasattr(e["cls"], "parse_response_header"):
+            continue
+        flexible = bool(getattr(e["cls"], "FLEXIBLE_VERSION", False))
+        obj = object.__new__(e["cls"])
+        buf = io.BytesIO(pystruct.pack(">i", 77) + (b"\x00" if flexible else b"") + b"\xaa\xbb")
+        try:
+            hdr = e["cls"].parse_response_header(obj, buf)
+            used, corr = buf.tell(), hdr.correlation_id
+        except Exception as ex:  # noqa
+            used, corr = -1, repr(ex)
+        n_hdr += 1
+        if used != (5 if flexible else 4) or corr != 77:
+            ctx.violation(f"reply-header-form:{e['name']}",
+                          f"{e['name']} (flexible={flexible}) parsed a reply header of {5 if flexible else 4} bytes as {used} bytes / correlation id {corr}",
+                          {"cases": [{"request": e["name"], "flexible": flexible, "consumed": used, "correlation_id": str(corr)}]})
+            break
+    ctx.coverage["reply_header_forms_checked"] = n_hdr
     if mism and not ctx.violations:
         i = mism[0]
         m = meta[i]
